@@ -1,8 +1,12 @@
 ------------------------------- MODULE Trace_Cli -------------------------------
 (* Implementation -> specification for C19: one line per run of the real `any` binary: mode (default,
-   exact, describe), the results the library computed for the same query in process, the lines the
-   binary printed, its exit status.                                                              *)
+   exact, describe, syntax), the results the library computed for the same query in process, the lines the
+   binary printed, its exit status.  In mode `syntax` the output starts with the dump of the syntax tree
+   (Syntax.tla: the tree Parser.tla builds from Lexer.tla's tokens), followed by the results as in
+   default mode.                                                                                  *)
 EXTENDS Cli, Json, IOUtils, TLCExt
+S == INSTANCE Syntax WITH StaleSkip <- FALSE, ParenReusesSkip <- FALSE, EatIgnoresSkip <- FALSE,
+                          RelabelInsteadOfPop <- FALSE, TokensAreResults <- FALSE
 Rec == ndJsonDeserialize(IOEnv.TRACE)
 \* how the tool spells each single unit (measured: `1 <unit>`, `2 <unit>`), and the symbols of unit display
 EnvNames == JsonDeserialize(IOEnv.NAMES)
@@ -11,6 +15,11 @@ KnownUnits(r) == \A i \in 1..Len(r.results) : \A j \in 1..Len(r.results[i].u) : 
 Check(r) ==
   IF r.lib_panic # "" \/ r.lib_parse_error # "" THEN <<>>        \* nothing computed: C11's subject
   ELSE IF ~KnownUnits(r) THEN <<"unknown-unit">>
+  ELSE IF r.mode = "syntax" THEN
+       LET d == S!DumpLines(r.src, r.dbg) IN
+       IF Len(r.stdout) < Len(d) \/ SubSeq(r.stdout, 1, Len(d)) # d THEN <<"syntax-dump">>
+       ELSE LET m == Matches(SubSeq(r.stdout, Len(d) + 1, Len(r.stdout)), r.results, <<>>, FALSE) IN
+            (IF m # "" THEN <<m>> ELSE <<>>) \o (IF r.exit # 0 THEN <<"exit-status">> ELSE <<>>)
   ELSE LET m == Matches(r.stdout, r.results, IF r.mode \in {"describe", "describe_after"} THEN r.descs ELSE <<>>, r.mode = "exact") IN
        (IF m # "" THEN <<m>> ELSE <<>>) \o (IF r.exit # 0 THEN <<"exit-status">> ELSE <<>>)
 VARIABLES l
